@@ -63,7 +63,7 @@ func (w *World) dispatchExt(op int) {
 	}
 }
 
-func (w *World) finish() {}
+func (w *World) finish() { w.finishCrash() }
 
 // ------------------------------------------------------------------ C15 iterator
 
@@ -833,3 +833,24 @@ func (w *World) afterAppend(n *Node, e iface.IPFSLogEntry, me *MEntry) {
 	}
 }
 
+
+// appendWithDiskError: the block write of this append fails (disk full / I/O error).
+func (w *World) appendWithDiskError(n *Node, pl []byte, pc int) {
+	r := w.R
+	before := w.observe(n.Log)
+	blocks := w.St.NumBlocks()
+	w.St.FailNextAdd("error")
+	e, err := n.Log.Append(w.ctx, pl, &ipfslog.AppendOptions{PointerCount: pc})
+	r.Logf("append n%d with disk error -> err=%v", n.Idx, err != nil)
+	if err == nil {
+		r.Violate("C17:acknowledged-lost-write", "Append returned %v although its block write failed", e.GetHash())
+	}
+	_, strict := w.M.Linear(n.Set, w.ByHash)
+	if d := w.sameObs(before, w.observe(n.Log), strict); d != "" {
+		r.Violate("C17:failed-append-changed-log", "an append whose block write failed changed the log: %s", d)
+	}
+	if w.St.NumBlocks() != blocks {
+		r.Violate("C17:failed-append-wrote", "an append whose block write failed left %d new blocks", w.St.NumBlocks()-blocks)
+	}
+	n.ClockAhead = true
+}
